@@ -9,13 +9,25 @@ set_option linter.unusedSimpArgs false
 namespace MenpoModel.GenProps.C19Src
 open MenpoModel.LazyList MenpoModel.PyData MenpoModel.Generated.C19Src MenpoModel.Py
 
+/-- `LazyList.__init__` stores the list of callables it is given, untouched (no callable is called) -/
+theorem genInit_eq (cs : List LThunk) : genInit cs = ⟨cs⟩ := by
+  simp [genInit, Fresh.setCallables, LL.fresh, ToLL.toLL]
+
+theorem genInit_eq_mk : genInit = LL.mk := funext genInit_eq
+
+theorem newWith_genInit {α} [ToCallables α] (x : α) : LL.newWith genInit x = LL.new x := by
+  simp [LL.newWith, LL.new, genInit_eq_mk]
+
+theorem genCopy_eq (s : LL) : genCopy s = copyFull s := by
+  simp [genCopy, copyFull, LL.fresh, Fresh.setCallables, ToLL.toLL, Py.list]
+
 @[simp] theorem mapE_mapE {α β γ} (g : β → γ) (f : α → β) (x : Except Err α) : mapE g (mapE f x) = mapE (fun a => g (f a)) x := by
   cases x <;> rfl
 
 theorem genGetitem_eq (s : LL) (x : GArg) : genGetitem s x = getitemFull s x := by
   obtain ⟨it, zd, isI, hasI, items, key⟩ := x
   unfold genGetitem getitemFull
-  simp only [ToGetRes.ret, LL.new, ToCallables.toE, PyGetItem.get, PyIter.iter, id, mapE_mapE]
+  simp only [ToGetRes.ret, newWith_genInit, LL.new, ToCallables.toE, PyGetItem.get, PyIter.iter, id, mapE_mapE]
   cases it <;> cases zd <;> cases isI <;> cases hasI <;> simp <;>
     (first | done | (cases listGet s.callables key with
       | error e => simp [mapE]
@@ -41,12 +53,12 @@ theorem map_zip_eq_zipWith {α β γ} (f : α → β → γ) (l : List α) (l' :
 
 theorem genInitFromIterable_eq (vs : List Int) (f : PFn) : genInitFromIterable vs f = initIterFull vs f := by
   unfold genInitFromIterable initIterFull
-  cases f <;> simp only [PFn.isNone, LL.new, ToCallables.toE, PyIter.iter, PyPartial.ap, id, if_true, Bool.false_eq_true, if_false]
+  cases f <;> simp only [PFn.isNone, newWith_genInit, LL.new, ToCallables.toE, PyIter.iter, PyPartial.ap, id, if_true, Bool.false_eq_true, if_false]
   all_goals (rw [seqE_map_of_ok _ _ (fun _ => rfl)]; rfl)
 
 theorem genInitFromIndexCallable_eq (f : PFn) (n : Int) : genInitFromIndexCallable f n = initIndexFull f n := by
   unfold genInitFromIndexCallable initIndexFull
-  cases f <;> simp only [LL.new, ToCallables.toE, PyIter.iter, PyPartial.ap, id]
+  cases f <;> simp only [newWith_genInit, LL.new, ToCallables.toE, PyIter.iter, PyPartial.ap, id]
   · rw [seqE_map_of_error _ _ (fun _ => rfl)]
     by_cases h : n ≤ 0
     · have : n.toNat = 0 := by omega
@@ -62,21 +74,20 @@ theorem genDelayed_eq (e : Env) (bad : Nat → Bool) (f : Nat) (t : LThunk) :
 
 theorem genMap_eq (s : LL) (f : MArg) : genMap s f = mapFull s f := by
   unfold genMap mapFull
-  simp only [genCopy, LL.setCallables, Py.list, PyIter.iter, PyLen.len, MArg.lenE, ToFnId.fid]
+  simp only [genCopy_eq, copyFull, LL.fresh, Fresh.setCallables, Fresh.callables, ToLL.toLL, Py.list, PyIter.iter, PyLen.len,
+    MArg.lenE, ToFnId.fid]
   split <;> (try split) <;> (try split) <;> simp_all [Except.bind, id, map_zip_eq_zipWith]
 
 theorem genLen_eq (s : LL) : genLen s = s.callables.length := by
   simp [genLen, PyLen.len]
 
-theorem genCopy_eq (s : LL) : genCopy s = copyFull s := by
-  simp [genCopy, copyFull, LL.setCallables, Py.list]
-
 theorem genRepeat_eq (s : LL) (n : Int) : genRepeat s n = repeatFull s n := by
-  simp [genRepeat, repeatFull, genCopy, LL.setCallables, chain_zip_mul, repCount]
+  simp [genRepeat, repeatFull, genCopy_eq, copyFull, LL.fresh, Fresh.setCallables, Fresh.callables, ToLL.toLL, PyMul.mul,
+    chain_zip_mul, repCount]
   try simp [Py.list]
 
 theorem genAdd_eq (fuel : Nat) (s : LL) (o : AArg) : genAdd (fuel + 2) s o = addFull s o := by
-  simp only [genAdd, addFull, PyAdd.add, LL.new, ToCallables.toE, genInitFromIterable_eq, initIterFull, AArg.ofLL]
+  simp only [genAdd, addFull, PyAdd.add, newWith_genInit, LL.new, ToCallables.toE, genInitFromIterable_eq, initIterFull, AArg.ofLL]
   split <;> (try split) <;> simp_all [mapE, Except.bind]
 
 /-! ### menpo/io/input/base.py -/
@@ -95,7 +106,7 @@ theorem genImportGlob_eq (w : GlobWorld) (known : List Nat) (max : Option Int) (
     genImportGlob w () known max r shuffle asGen lmExt attach () verbose
       = importGlobFull w known max r lmExt attach shuffle asGen := by
   unfold genImportGlob importGlobFull
-  simp only [genGlobWithSuffix_eq, Py.list, PyLen.len, PyIter.iter, LL.new, ToCallables.toE, Py.progress,
+  simp only [genGlobWithSuffix_eq, Py.list, PyLen.len, PyIter.iter, newWith_genInit, LL.new, ToCallables.toE, Py.progress,
     ToGlobRes.ret, id, mapE, Except.bind]
   cases max with
   | none =>
